@@ -97,6 +97,18 @@ add("C06", True, "E3-hostile", "exploration",
     "Exhaustive over the stated alphabets only. One known finding is listed (reassembly buffer preallocation). Debug-assertions and overflow checks are on (as in the pinned suite).",
     "5.6")
 
+add("C16", True, "E2-enum", "exploration",
+    "bounded-exhaustive enumeration of protection level x kind x key length x origin authentication x carried content x every single-byte alteration / truncation / field splice of the encoded datagram and every one-byte difference in the receiver's key material, on real plug-ins and on the real Writer -> MessageReceiver pipeline",
+    "Plug-in level: 32 configurations (payload in DATA / in DATAFRAG, writer submessage, reader submessage, whole message x sign/encrypt x AES-128/256 x origin authentication) x carried content (DATA bodies of 17 lengths incl. every residue mod 4 around the AES block - thorough: 0..131 -, dispose DATA, DATAFRAG, HEARTBEAT, GAP, ACKNACK, NACKFRAG); a real sender CryptographicBuiltin encodes for receiver lists [0] and [0,1], the datagram is serialized, parsed back (real DATA/DATAFRAG/SEC_* framing) and decoded by real receiver plug-ins keyed through the real key factory and key exchange: untouched -> exactly what was encoded; every byte x masks, every truncation, IV/MAC/ciphertext/session/key-id spliced from a sibling encoding, receiver-specific MAC swapped or list emptied, sender with other key material, every one-byte difference in the installed key material -> rejected (alterations of bytes no layer reads may instead yield byte-identical data; byte classes from an independent layout parser). Pipeline level: two participants brought up from signed fixture documents, authenticated and keyed through the real handshake and key exchange; samples (values, disposes, fragmented) written through the real Writer under 4 (thorough 8) governance documents x 7 (15) topics of all metadata x data protection kinds are injected untouched and with every single-byte alteration into the peer's real MessageReceiver; oracle on the reader's TopicCache.",
+    "Exhaustive over the stated alphabets only; keys and IVs are random per run (verdicts do not depend on them). Built with cargo feature security (target-sec).",
+    "5.16")
+
+add("C19", True, "E2-enum", "exploration",
+    "bounded-exhaustive enumeration of (point of the genuine three-message handshake, target, message, alteration) with one injected bad token, then genuine continuation incl. resends, on two real SecurityPlugins under a mirror of the discovery layer's handshake dispatch",
+    "Two participants with certificates issued by the shipped Identity CA run validate_local/remote_identity and the real begin_handshake_request / begin_handshake_reply / process_handshake. At each of the 4 points of the genuine run, into the requester or the replier, one bad token derived from any message seen so far is injected: verbatim (replay, reordering, reflection), the same message of an earlier completed handshake, each other class id, every binary property dropped / renamed / emptied / replaced by its earlier value, a certificate of the same subject from another CA and a GUID not bound to the certificate (content hash kept / recomputed / dropped), and every byte of every binary property flipped (about 10 000 positions; thorough: three masks and also one step late). Then the genuine messages keep flowing with the discovery layer's resends. Oracle: nobody completes (Ok / OkFinalMessage, shared secret) while processing a bad token or a response derived from one; afterwards both sides complete with equal shared secrets. Also: all 6 ordered pairs of the three CA-issued identities complete with equal secrets; an identity from another CA never does.",
+    "One injection per run. The six-state dispatch of SecureDiscovery::participant_stateless_message_read is mirrored in the harness (trusted). One known finding is listed (a replier that accepted a non-genuine request cannot restart). Dropping the optional hash_c1/hash_c2 aids is not counted as altering content.",
+    "5.19")
+
 NOT_YET = {}
 
 def main():
